@@ -71,10 +71,16 @@ func checkExactPosition(c *c07Exact) (key, msg string) {
 		return "harness/c07-planted-construct-not-diagnosed", fmt.Sprintf("%s: no diagnostic containing %q; got %v\n%s", c.What, c.MsgSub, diagStrings(ds), c.YAML)
 	}
 	key = "C07/wrong-position:" + c.What
-	if c.Quoted && strings.HasPrefix(c.Leaf, "jobs.<job_id>.strategy.matrix") && len(cands) == 1 && cands[0].Line == c.Line && cands[0].Col == c.Col-1 {
+	oneLeft := false
+	for _, d := range cands {
+		if d.Line == c.Line && d.Col == c.Col-1 {
+			oneLeft = true
+		}
+	}
+	if c.Quoted && strings.HasPrefix(c.Leaf, "jobs.<job_id>.strategy.matrix") && oneLeft {
 		key = "C07/quoted-matrix-value-column-off-by-one"
 	}
-	if strings.HasSuffix(c.What, "(if-without-placeholder)(quoted)") && len(cands) == 1 && cands[0].Line == c.Line && cands[0].Col == c.Col-1 {
+	if strings.HasSuffix(c.What, "(if-without-placeholder)(quoted)") && oneLeft {
 		key = "C07/quoted-if-without-placeholder-column-off-by-one"
 	}
 	return key, fmt.Sprintf("%s: offending token is at %d:%d but reported at %v\n%s", c.What, c.Line, c.Col, diagStrings(cands), c.YAML)
@@ -301,9 +307,50 @@ func TestC07(t *testing.T) {
 				return // objects and arrays are legitimate matrix values
 			}
 			lf.Val, lf.Raw, lf.Style = val, "", style
+			// copies of the same expression elsewhere in the file, spaced differently after "${{"
+			type planted struct {
+				n   *ye.Node
+				off int
+			}
+			var copies []planted
+			if strings.HasPrefix(text, "${{ ") && strings.Count(text, "${{") == 1 && strings.Contains(val, "${{") && e.what != "object-evaluated-in-template" {
+				for i := 0; i < rapid.IntRange(0, 2).Draw(rt, "ncopies"); i++ {
+					o := cand[rapid.IntRange(0, len(cand)-1).Draw(rt, "copyleaf")]
+					if o == lf || strings.Contains(wf.LeafOf(o).Path, ".strategy.matrix") || strings.HasSuffix(wf.LeafOf(o).Path, ".if") {
+						continue
+					}
+					dup := false
+					for _, cp := range copies {
+						if cp.n == o {
+							dup = true
+						}
+					}
+					if dup {
+						continue
+					}
+					extra := rapid.SampledFrom([]string{"", " ", "   ", "\t"}).Draw(rt, "innerws")
+					t2 := "${{ " + extra + text[4:]
+					o.Val, o.Raw, o.Style = t2, "", ye.Double
+					if strings.Contains(t2, "\t") {
+						o.Val = strings.ReplaceAll(t2, "\t", "  ")
+						extra = "  "
+					}
+					copies = append(copies, planted{o, off + len(extra)})
+				}
+			}
 			lay := g.Layout()
 			src := ye.Emit(w.Root, lay)
 			c := &c07Exact{YAML: src, Line: lf.Line, Col: lf.ContentCol + len(pre) + off, MsgSub: e.msg, What: e.what, Leaf: info.Path, Quoted: lf.ContentCol != lf.Col}
+			if len(copies) > 0 {
+				// the same construct was also planted at other leaves (with other spacing inside the
+				// placeholder): every copy must be reported at its own token
+				for _, cp := range copies {
+					c2 := &c07Exact{YAML: src, Line: cp.n.Line, Col: cp.n.ContentCol + cp.off, MsgSub: e.msg, What: e.what + "(repeated-in-file)", Leaf: wf.LeafOf(cp.n).Path, Quoted: cp.n.ContentCol != cp.n.Col}
+					if k, m := checkExactPosition(c2); k != "" && !strings.HasPrefix(k, "harness/") {
+						r.Fail(rt, k, m, "C07/exact", c2)
+					}
+				}
+			}
 			if strings.HasSuffix(info.Path, ".if") && !strings.Contains(val, "${{") {
 				c.What += "(if-without-placeholder)"
 				if lf.ContentCol != lf.Col {
